@@ -19,9 +19,9 @@ KEYS = {"cfg": "vbft-select:pos-table-not-from-pool-or-not-a-function",
 def run(ctx):
     q = ctx.quick
     b = ctx.build("vd-vbft")
-    ctx.mc("VbftSelectMC", "VbftSelect_mc_quick.cfg" if q else "VbftSelect_mc_thorough.cfg", timeout=3000,
+    ctx.mc("VbftSelectMC", "VbftSelect_mc_quick.cfg" if q else "VbftSelect_mc_thorough.cfg", timeout=6000,
            workers=max(2, ctx.cores // 2))
-    builds, seeds = (35, 1) if q else (400, 12)
+    builds, seeds = (35, 1) if q else (1000, 12)
     events = ctx.driver(b, ["select", str(builds), str(seeds)])
     cfgs, cur = {}, None
     ok_by_n, err_by_n, distinct = {}, {}, set()
@@ -42,7 +42,7 @@ def run(ctx):
             distinct.add((e["id"], e["kind"], tuple(e["props"]), tuple(e["out"])))
     if len(cfgs) < 10 or sum(ok_by_n.values()) < 100:
         ctx.fail("vacuous recording: %d configs, successful selections per N: %s" % (len(cfgs), ok_by_n))
-    ok, hw, r = ctx.validate_trace("TraceVbftSelect", "TraceVbftSelect.cfg", events, timeout=3000)
+    ok, hw, r = ctx.validate_trace("TraceVbftSelect", "TraceVbftSelect.cfg", events, timeout=6000)
     if not ok:
         ctx.fail("trace validation did not consume the whole log (highwater %d of %d):\n%s" % (hw, len(events), r.out[-3000:]))
     drift = 0
